@@ -1,5 +1,6 @@
 (* C08 -- Path text and parsed segments round-trip in both notations.
-   Statements only; proofs live in Proofs/RtStep.v RtSeg.v RtRender.v RtTables.v.
+   Statements only; proofs live in Proofs/RtStep.v RtSeg.v RtInt.v RtRender.v RtTables.v
+   RtCanon.v RtClauses.v RtPop.v.
 
    Vocabulary: Spec/C08Spec.v defines the documented writer [render_ref] over
    styled segments (a segment plus the writer's free choices: quote
@@ -10,22 +11,27 @@
    runs); [stringify], [y_eq], [y_append], [y_pop] model the printer and the
    YAMLPath object (Model/PathPrinter.v).
 
-   STATUS
-     C08_parse_render_partial       proved for every segment kind except SEARCH
-                                    (guard [not_search]); the element-index guard
-                                    [idx_guard] is the computable statement that
-                                    int(str(n)) = n for the index n.
-     C08_parse_render_auto_partial  the same with separator inference.
-     C08_*_ok                       side conditions over the regenerated tables.
-     C08_parse_render_F21_refuted   finding F21 (quote-wrapped search term).
-     C08_eq_iff_F23_refuted         finding F23 (__eq__ and an escaped dot).
-     C08_canonical / C08_fixpoint / C08_eq_iff / C08_append_pop
-                                    stated below as propositions (Definition ... : Prop),
-                                    NOT proved; instances are checked by computation in
-                                    the Examples and on every generated case by
-                                    harness/c08.py (judge). *)
+   STATUS (every theorem below is proved; Print Assumptions: closed)
+     C08_parse_render_partial       clause 1, every segment kind incl. SEARCH, both notations;
+                                    only guard [wf] (F21 is the one finding inside it)
+     C08_parse_render_auto_partial  the same through separator inference (exclusion guard)
+     C08_int_of_str                 int(str(n)) = n for all integers
+     C08_canonical_partial / C08_canonical_auto_partial / C08_fixpoint_partial
+                                    clause 2; guards [wfc], [dot_text_ok], non-blank dot text
+     C08_escape_symbol_scan / C08_ensure_escaped_written
+                                    ensure_escaped as a left-to-right scan
+     C08_eq_iff_partial             clause 3; guard [no_dot_key] = finding F23
+     C08_append_pop_cut_partial / C08_append_pop_partial
+                                    clause 4 for a tail written after a separator, when pop()
+                                    cuts a canonical tail or rebuilds (no suffix match)
+     C08_*_ok                       side conditions over the regenerated tables
+     C08_parse_render_F21_refuted   finding F21 (quote-wrapped search term)
+     C08_eq_iff_F23_refuted         finding F23 (__eq__ and an escaped dot)
+   NOT proved: clause 4 for a tail that carries its own demarcation ([0], [a=b],
+   (collector), [&a]) and for accidental suffix matches of a non-canonical tail;
+   both are checked on every generated case by harness/c08.py (judge). *)
 From Coq Require Import List Ascii String ZArith Bool.
-From YP Require Import Outcome PyStr Generated PathParser PathPrinter C08Spec RtStep RtSeg RtInt RtRender RtTables RtCanon RtClauses.
+From YP Require Import Outcome PyStr Generated PathParser PathPrinter C08Spec RtStep RtSeg RtInt RtRender RtTables RtCanon RtClauses RtPop.
 Import ListNotations.
 Open Scope string_scope.
 
@@ -128,6 +134,36 @@ Theorem C08_eq_iff_partial :
 Proof. exact eq_iff. Qed.
 Print Assumptions C08_eq_iff_partial.
 
+(* ---- clause 4: appending a segment then popping it restores the path.
+   Proved for a tail that is written after a separator ([needs_sep]: key, "*",
+   "**", bare anchor) in the two situations pop() distinguishes: the tail is in
+   canonical form (the text is cut, and the path TEXT is restored), or no
+   suffix test matches (the path is rebuilt from the remaining segments; its
+   text is the canonical one, the segments are restored).  The rebuilt text is
+   a canonical dot text, so the property's exclusion applies to it. ---- *)
+Theorem C08_append_pop_cut_partial :
+  forall (sp : sep) (l : list sseg) (x : sseg),
+    l <> [] -> wf sp l = true -> wfc sp (l ++ [x]) = true ->
+    dot_text_ok sp (render_ref sp l) = true -> needs_sep x = true ->
+    tail_canonical sp x = true ->
+    exists p', y_pop (y_append (body (sep_char sp) x) (y_new (render_ref sp l)))
+               = (Ok (kseg false (sep_char sp) (plain_x x)), p')
+               /\ y_orig p' = render_ref sp l /\ fst (y_escaped p') = Ok (segs_of l).
+Proof. exact append_pop_cut. Qed.
+Print Assumptions C08_append_pop_cut_partial.
+
+Theorem C08_append_pop_partial :
+  forall (sp : sep) (l : list sseg) (x : sseg),
+    l <> [] -> wfc sp l = true -> wfc sp (l ++ [x]) = true ->
+    dot_text_ok sp (render_ref sp l) = true -> needs_sep x = true ->
+    (tail_canonical sp x || no_suffix_match sp l x) = true ->
+    dot_text_ok sp (canon_of sp sp l) = true -> (sp = Dot -> nonblank (canon_of sp sp l) = true) ->
+    exists sg p', y_pop (y_append (body (sep_char sp) x) (y_new (render_ref sp l))) = (Ok sg, p')
+                  /\ sg = kseg false (sep_char sp) (plain_x x)
+                  /\ fst (y_escaped p') = Ok (segs_of l).
+Proof. exact append_pop. Qed.
+Print Assumptions C08_append_pop_partial.
+
 (* ---- non-vacuity: keys with every escapable character are well-formed, and
    every segment kind occurs ---- *)
 Definition every_escapable : string := "a\b.c/d(e)f[g]h^i$j%k l'm""n".
@@ -213,6 +249,22 @@ Example C08_eq_instances :
   y_eq (y_new (render_ref Dot sample_searches)) (render_ref Slash sample_searches) = Ok true
   /\ y_eq (y_new "a.b[0]") "/a/b/0" = Ok false.
 Proof. vm_compute. split; reflexivity. Qed.
+
+(* non-vacuity of clause 4: a canonical tail and a quoted tail with every
+   escapable character; the guard that excludes the path "/" in quotes (dot
+   notation), whose canonical dot text is "/" *)
+Example C08_append_pop_nonvacuous :
+  let k := ((Some TKey, AStr "x"), plain_style) in
+  let tail_plain := ((Some TKey, AStr every_escapable), plain_style) in
+  let tail_quoted := ((Some TKey, AStr every_escapable), mkstyle (Some SQ) false false "/"%char) in
+  let slash_key := ((Some TKey, AStr "/"), mkstyle (Some DQ) false false "/"%char) in
+  wfc Dot [k; tail_plain] = true /\ tail_canonical Dot tail_plain = true /\ tail_canonical Slash tail_plain = true
+  /\ wfc Dot [k; tail_quoted] = true /\ no_suffix_match Dot [k] tail_quoted = true
+  /\ no_suffix_match Slash [k] tail_quoted = true
+  /\ dot_text_ok Dot (canon_of Dot Dot [k]) = true /\ nonblank (canon_of Dot Dot [k]) = true
+  /\ wfc Dot [slash_key; tail_quoted] = true /\ dot_text_ok Dot (render_ref Dot [slash_key]) = true
+  /\ dot_text_ok Dot (canon_of Dot Dot [slash_key]) = false.
+Proof. vm_compute. repeat split; reflexivity. Qed.
 
 Example C08_append_pop_instances :
   (let p := y_append "'a b'" (y_new "x.y") in (fst (y_pop p), y_orig (snd (y_pop p))))
